@@ -14,7 +14,9 @@ Record vcase := mkVCase { c_t : target; c_v : gval; c_enc : gval; c_dec : gval; 
 (** a message of Wire/Messages.v: the value, the implementation's encoding, what the implementation decodes from it *)
 Inductive wmsg := MRu (t : wtables wru) | MRu2 (t : wtables wru2) | MRes (r : wresult) | MMon (m : wmonreq) | MSince (s : wsince).
 Inductive case := CVal (c : vcase) | COp (w : wop) (enc : gval) (dec : wop) (uuids : list sym)
-                | CMsg (m : wmsg) (enc : gval) (dec : wmsg) (uuids : list sym).
+                | CMsg (m : wmsg) (enc : gval) (dec : wmsg) (uuids : list sym)
+                (* a decoded monitor request and what its accessors Initial/Insert/Delete/Modify answer *)
+                | CSel (m : wmonreq) (initial insert delete modify : bool).
 Definition mkCase t v e d u := CVal (mkVCase t v e d u).
 
 Definition FUEL := 64%nat.
@@ -132,5 +134,10 @@ Definition check_msg (m : wmsg) (enc : gval) (dec : wmsg) (uuids : list sym) : n
       (23, msg_eqv dec m) ]%nat.
 
 Definition check (c : case) : nat :=
-  match c with CVal v => check_val v | COp w e d u => check_op w e d u | CMsg m e d u => check_msg m e d u end.
+  match c with
+  | CVal v => check_val v | COp w e d u => check_op w e d u | CMsg m e d u => check_msg m e d u
+  | CSel m a b c d =>
+      let '(a', b', c', d') := sel_kinds (mr_select m) in
+      first_fail [ (24, Bool.eqb a a' && Bool.eqb b b' && Bool.eqb c c' && Bool.eqb d d') ]%nat
+  end.
 Definition run := run_cases check.
